@@ -3,8 +3,10 @@
 The same selection can be written as
     coll.iter().filter(p).max_by_key(k)                  coll.iter().filter(p).fold(None, step)
     helper(self.matching(..), k)                         for x in &coll { if !p(x) { continue }  best = step(best, x) }
+    coll.iter().filter(p).reduce(later)                  Candidates { inner: coll.iter(), .. }.max_by_key(k)
 and the predicate p / the step can live in closures, in private helper functions, in `Option::is_none_or(..)`
-combinators or in the loop body.  `select_model(prog, sl, entry)` reduces all of them to one description
+combinators, in the loop body, in the hand-written `next` of a private iterator type / `from_fn` closure
+(own_iterator), or behind std's binary selectors `std::cmp::max_by(a, b, cmp)` .. (value_cases).  `select_model(prog, sl, entry)` reduces all of them to one description
 
     Model.coll        value of the collection whose elements are visited (entry function's terms)
     Model.tpaths      the predicate: per predicate stage, the decision paths on which an element passes / fails,
@@ -38,7 +40,7 @@ FULL_T = frozenset(('Less', 'Equal', 'Greater'))
 FULL_P = FULL_T | {'None'}
 REL = {'gt': {'Greater'}, 'ge': {'Greater', 'Equal'}, 'lt': {'Less'}, 'le': {'Less', 'Equal'}}
 FLIP = {'Less': 'Greater', 'Greater': 'Less', 'Equal': 'Equal', 'None': 'None'}
-LEAF = ('const', 'param', 'fnitem', 'constitem', 'unknown', 'closure_env', 'upvar', 'item', 'acc')
+LEAF = ('const', 'param', 'fnitem', 'constitem', 'unknown', 'closure_env', 'upvar', 'item', 'acc', 'pathlocal')
 
 
 class Giveup(Exception):
@@ -259,7 +261,41 @@ class Engine:
                 if inner[0] == 'const' and isinstance(inner[1], bool):
                     return ('const', not inner[1])
                 return ('un', 'Not', inner)
+        if depth < 8 and rv['r'] in ('agg', 'ref', 'cast', 'use'):
+            # `Some(match .. { .. })`, `Some(if c { a } else { b })`: an operand that is assigned per branch has, on
+            # *this* path, the value of the branch taken (not the phi of all branches)
+            opaque = getattr(S, 'opaque', {})
+            multi = sorted({pl[0] for pl, how in _rv_places(rv) if pl and self._path_dependent(fn, pl[0], opaque)})
+            if multi:
+                mp = {('pathlocal', l): self.value_at(fn, S, blocks, l, p, depth + 1) for l in multi}
+                S2 = OpaqueSlicer(self.prog, list(opaque.items()) + [((fn.path, l), ('pathlocal', l)) for l in multi])
+                return self._replace(S2._rvalue(fn, rv, set(), 0, None), mp)
         return S._rvalue(fn, rv, set(), 0, None)
+
+    def _path_dependent(self, fn, l, opaque, depth=0):
+        """the local is assigned on several branches, or is a plain copy / reference / aggregate of one that is"""
+        if l == 0 or 1 <= l <= fn.argc or (fn.path, l) in opaque or fn.partial_defs(l) or depth > 6:
+            return False
+        ds = fn.whole_defs(l)
+        if len(ds) > 1:
+            return True
+        if len(ds) == 1 and ds[0][0] == 'stmt' and ds[0][3]['r'] in ('use', 'ref', 'cast', 'agg'):
+            return any(pl and self._path_dependent(fn, pl[0], opaque, depth + 1) for pl, how in _rv_places(ds[0][3]))
+        return False
+
+    def _replace(self, v, mp):
+        if not isinstance(v, tuple) or not v:
+            return v
+        if v in mp:
+            return mp[v]
+        if isinstance(v[0], str) and v[0] in LEAF:
+            return v
+        out = tuple(self._replace(x, mp) if isinstance(x, tuple) else x for x in v)
+        if out != v and out[0] == 'field':
+            return self.sl._field(out[1], out[2])
+        if out != v and out[0] == 'unwrap':
+            return self.sl.mk_unwrap(out[1], 1)
+        return out
 
     # ---- decisions ------------------------------------------------------------------------------------------
     def fn_vpaths(self, g, m, depth):
@@ -395,6 +431,89 @@ class Engine:
             return ('raw', '%s is %s' % (show(v), oc))
         return ('raw', str(a)[:80])
 
+    # ---- values a step returns ---------------------------------------------------------------------------------
+    def apply_cases(self, f, args, depth):
+        """[(decisions, returned value)] of calling the closure / function item f with `args`"""
+        f = strip(f)
+        g = self.prog.fns.get(f[1]) if f[0] in ('closure', 'fnitem') else None
+        if f[0] == 'fnitem' and (g is None or g.impl_trait or not g.blocks):
+            n = f[1]
+            if n.endswith(' as std::cmp::Ord>::cmp'):
+                n = CMP
+            elif n.endswith(' as std::cmp::PartialOrd>::partial_cmp'):
+                n = PCMP
+            return [([], ('call', n, tuple(args), None))]
+        if g is None or not g.blocks:
+            raise Giveup('cannot look into ' + vstr(f)[:60])
+        off = 1 if f[0] == 'closure' else 0
+        m = {(g.path, off + i): a for i, a in enumerate(args)}
+        if f[0] == 'closure':
+            for i, uv in enumerate(f[2]):
+                m[('upvar', g.path, i)] = uv
+        return self.fn_vpaths(g, m, depth + 1)
+
+    def _by_ordering(self, rows, keep_first, a, b, depth):
+        """std::cmp::{max_by, min_by}(a, b, compare): rows = [(decisions, Ordering returned by compare(&a, &b))];
+        max_by returns a only when that is Greater, min_by returns b only when it is Greater"""
+        out = []
+        for case, ov in rows:
+            for outs in (('Greater',), ('Less', 'Equal')):
+                first = (outs == ('Greater',)) == keep_first
+                for extra in self.expand_atom(('variant', strip(ov), ORD, frozenset(outs)), depth):
+                    out.append((case + extra, a if first else b))
+        return out
+
+    def _key(self, k, x):
+        k = strip(k)
+        r = self.sl.apply_closure(k, (x,)) if k[0] in ('closure', 'fnitem') else None
+        return self.reduce(r if r is not None else ('call', FN_CALLS[0], (k, ('tuple', (x,))), None))
+
+    def value_cases(self, v, depth=0):
+        """[(decisions, value)]: what a selection step evaluates to, with the private functions / closures it
+        returns through and std's binary selectors expanded into the decisions they take:
+            std::cmp::max_by(a, b, cmp)      = a if cmp(&a, &b) is Greater, otherwise b       (min_by: b if Greater)
+            std::cmp::max_by_key(a, b, key)  = max_by(a, b, |x, y| key(x).cmp(key(y)))         (min_by_key alike)
+            Ord::max(a, b)                   = max_by(a, b, Ord::cmp)                           (Ord::min alike)
+            Option::map_or(o, d, f)          = d if o is None, f(payload) otherwise             (map_or_else alike)
+            Some(<any of these>)             distributes
+        so `reduce(later)` with `fn later(a, b) { std::cmp::max_by(a, b, |x, y| x.k.cmp(&y.k)) }`, a closure doing the
+        same, and a hand-written `match a.k.cmp(&b.k)` have one table"""
+        if depth > 6 or not isinstance(v, tuple) or not v:
+            return [([], v)]
+        if v[0] == 'agg' and (v[1] or '') == OPT and v[2] == 'Some' and len(v[3]) == 1 and v[3][0][1][0] == 'call':
+            return [(c, ('agg', v[1], v[2], ((v[3][0][0], x),))) for c, x in self.value_cases(v[3][0][1], depth + 1)]
+        if v[0] != 'call' or not (mentions(v, ITEM) or mentions(v, ACC)):
+            return [([], v)]
+        name, args = v[1], v[2]
+        rows = None
+        if name in ('std::cmp::max_by', 'std::cmp::min_by') and len(args) == 3:
+            rows = self._by_ordering(self.apply_cases(args[2], (args[0], args[1]), depth), name.endswith('max_by'), args[0], args[1], depth)
+        elif name in ('std::cmp::max_by_key', 'std::cmp::min_by_key') and len(args) == 3:
+            ov = ('call', CMP, (self._key(args[2], args[0]), self._key(args[2], args[1])), None)
+            rows = self._by_ordering([([], ov)], name.endswith('max_by_key'), args[0], args[1], depth)
+        elif name in ('std::cmp::Ord::max', 'std::cmp::Ord::min', 'std::cmp::max', 'std::cmp::min') and len(args) == 2:
+            rows = self._by_ordering([([], ('call', CMP, (args[0], args[1]), None))], name.endswith('max'), args[0], args[1], depth)
+        elif name.startswith('std::option::Option::<') and name.endswith(('::map_or', '::map_or_else')) and len(args) == 3:
+            o = args[0]
+            some, none = ('variant', o, OPT, frozenset(('Some',))), ('variant', o, OPT, frozenset(('None',)))
+            dflt = [([], args[1])] if name.endswith('::map_or') else self.apply_cases(args[1], (), depth)
+            rows = [([none] + c, x) for c, x in dflt] + [([some] + c, x) for c, x in self.apply_cases(args[2], (self.sl.mk_unwrap(o),), depth)]
+        elif name in FN_CALLS and len(args) == 2 and strip(args[0])[0] in ('closure', 'fnitem') and args[1][0] == 'tuple':
+            rows = self.apply_cases(args[0], tuple(args[1][1]), depth)
+        else:
+            g = self.prog.fns.get(name)
+            if g is not None and g.kind != 'Closure' and not g.impl_trait and g.blocks and g.ret != 'bool':
+                rows = self.fn_vpaths(g, {(g.path, i): x for i, x in enumerate(args) if i < g.argc}, depth + 1)
+        if rows is None:
+            return [([], v)]
+        out = []
+        for case, x in rows:
+            for extra, y in self.value_cases(x, depth + 1):
+                out.append((case + extra, y))
+            if len(out) > 200:
+                raise Giveup('step too wide')
+        return out
+
     # ---- the selection model --------------------------------------------------------------------------------
     def pipeline(self, v):
         """(collection, [filter closure values]) of an iterator expression made of iter()/into_iter()/filter(..);
@@ -409,14 +528,138 @@ class Engine:
             if v[0] == 'call' and len(v[2]) == 1 and not v[1].startswith(IT) and v[1].endswith(('::iter', '::into_iter')):
                 v = strip(v[2][0])
                 continue
+            if is_call(v, IT + 'by_ref') and len(v[2]) == 1:
+                v = strip(v[2][0])
+                continue
+            if v[0] == 'call' and v[1] in self.prog.fns:
+                # a private helper that only builds the iterator (`self.matching(os, arch, requirement)`)
+                iv = self.sl.inline_deep(v)
+                if iv != v:
+                    v = strip(iv)
+                    continue
+            if (v[0] == 'agg' and v[1] in self.prog.adts) or (is_call(v, 'std::iter::from_fn') and len(v[2]) == 1):
+                # a private iterator type with a hand-written `next` (or a from_fn closure) that filters one inner iterator
+                ci = self.own_iterator(v) if v[0] == 'agg' else self.from_fn_iterator(v[2][0])
+                if ci is None:
+                    return None
+                filters.append(ci[1])
+                v = strip(ci[0])
+                continue
             break
         if v[0] == 'call' and (v[1].startswith(IT) or v[1].startswith('std::iter::')):
             return None
         filters.reverse()
         return v, filters
 
+    def own_iterator(self, selfv):
+        """(inner iterator value, predicate stage) when `selfv` is a literal of a workspace type whose own
+        `Iterator::next` yields, in order, exactly the elements of one inner iterator (a field) that pass a test:
+            loop { let x = self.inner.next()?; if !p(x) { continue }  return Some(x) }     (`while let` / `for` alike)
+            self.inner.find(|x| p(x))                  self.inner.by_ref().filter(|x| p(x)).next()
+        The default methods of Iterator (fold, reduce, max_by_key, ..) call `next` until it returns None, so such a
+        type is `inner.filter(p)`: None is returned only when the inner iterator is exhausted, a rejected element
+        only leads to the next one, nothing else of `self` changes.  The stage is ('rows', decision paths, fn) with
+        the fields of `self` replaced by what the literal holds.  Anything else -> None (fail closed)."""
+        import re
+        adt = selfv[1]
+        rx = re.compile('^<' + re.escape(adt) + r'(<.*>)? as std::iter::Iterator>::(\w+)$')
+        own = {}
+        for f in self.prog.fns.values():
+            if f.impl_trait == 'std::iter::Iterator' and f.kind != 'Closure':
+                mm = rx.match(f.path)
+                if mm:
+                    own[mm.group(2)] = f
+        g = own.get('next')
+        # an overridden fold / max_by_key / .. would be what a generic consumer really runs
+        if g is None or not g.blocks or set(own) - {'next', 'size_hint'}:
+            return None
+        return self._next_model(g, {(g.path, 0): selfv}, lambda x: strip(x)[0] == 'field' and is_param(strip(x)[1], g, 0))
+
+    def from_fn_iterator(self, clv):
+        """the same for `std::iter::from_fn(move || ..)`: the closure is the `next`, its captured variables the state"""
+        clv = strip(clv)
+        g = self.prog.fns.get(clv[1]) if clv[0] == 'closure' else None
+        if g is None or not g.blocks or g.argc != 1:
+            return None
+        m = {('upvar', g.path, i): uv for i, uv in enumerate(clv[2])}
+        return self._next_model(g, m, lambda x: strip(x)[0] == 'upvar' and strip(x)[1] == g.path)
+
+    def _next_model(self, g, m, field_of_self):
+        S = self.S
+        m = dict(m)
+        # `self` is only read, except for the one inner iterator that is advanced
+        if g.partial_defs(1) or any(u[1] in ('arg', 'callee', 'drop') for u in g.uses_of(1)):
+            return None
+        muts = [u for u in g.uses_of(1) if u[1] == 'stmt' and u[3] in ('refmut', 'rawptr', 'm')]
+        nxt = [c for c in g.calls if not c.indirect and c.decl == IT + 'next']
+        if not nxt:
+            # no loop of its own: `self.inner.find(p)` or `<pipeline over self.inner>.next()`
+            if len(muts) != 1 or any(b['t']['t'] == 'switch' for b in g.blocks):
+                return None
+            rv = strip(S.local(g, 0))
+            if is_call(rv, IT + 'find') and len(rv[2]) == 2 and field_of_self(rv[2][0]):
+                return self.sub(rv[2][0], m), self.sub(rv[2][1], m)
+            return None
+        if len(nxt) != 1 or nxt[0].target is None or len(muts) != 1:
+            return None
+        c = nxt[0]
+        h, sw = c.bb, c.target
+        recv = S.operand(g, c.args[0])
+        if is_call(strip(recv), IT + 'by_ref') and len(strip(recv)[2]) == 1:
+            recv = strip(recv)[2][0]
+        if not field_of_self(recv):
+            # `<pipeline over self.inner>.next()`, once, outside any loop
+            if g.in_loop(h) or any(b['t']['t'] == 'switch' for b in g.blocks):
+                return None
+            pl = self.pipeline(recv)
+            if pl is None or not field_of_self(pl[0]) or len(pl[1]) != 1 or strip(S.local(g, 0)) != strip(S._call_value(g, c, set(), 0)):
+                return None
+            return self.sub(pl[0], m), self.sub(pl[1][0], m)
+        callv = S._call_value(g, c, set(), 0)
+        nextv = canon(callv)
+        m['__repl__'] = [(canon(('unwrap', callv)), ITEM)]
+        for blocks, atoms, end in self.paths(g, S, 0, stops=(h,)):
+            if end != 'stop' or atoms:
+                return None         # something is decided (or returned) before the inner iterator is asked
+        def next_state(a):
+            if a[0] != 'variant':
+                return None
+            s, names = a[1], frozenset(a[3])
+            if is_call(s, BRANCH) and len(s[2]) == 1 and canon(s[2][0]) == nextv:
+                return 'Some' if names == {'Continue'} else ('None' if names == {'Break'} else '?')
+            if canon(s) == nextv:
+                return 'Some' if names == {'Some'} else ('None' if names == {'None'} else '?')
+            return None
+        rows = []
+        for blocks, atoms, end in self.paths(g, S, sw, stops=(h,)):
+            el = [next_state(a) for a in atoms if next_state(a) is not None]
+            rest = [self.sub_atom(a, m) for a in atoms if next_state(a) is None]
+            if len(el) != 1 or el[0] == '?':
+                return None
+            if el[0] == 'None':
+                # the inner iterator is exhausted: None, unconditionally
+                rv = strip(self.value_at(g, S, blocks, 0)) if end == 'ret' else None
+                none = rv is not None and ((rv[0] == 'agg' and rv[2] == 'None' and (rv[1] or '') == OPT) or canon(rv) == nextv or
+                                           (rv[0] == 'call' and rv[1].endswith('FromResidual::from_residual') and len(rv[2]) == 1 and rv[2][0][0] == 'residual' and canon(rv[2][0][1]) == nextv))
+                if not none or rest:
+                    return None
+                continue
+            if end == 'stop':
+                passes = False      # back to the loop head: the element is skipped
+            elif end == 'ret' and self._pick(self.sub(self.value_at(g, S, blocks, 0), m)) == 'item':
+                passes = True
+            else:
+                return None         # returns None / something else although the inner iterator had an element
+            for case in self.expand_case(rest, 0):
+                rows.append(([self.norm_atom(a) for a in case], passes))
+        return self.sub(recv, m), ('rows', rows, g)
+
     def _pred_stage(self, model, clv):
         """decision paths of one predicate stage applied to ITEM: [(literals, passes?)]"""
+        if clv[0] == 'rows':
+            model.stages.append(clv[1])
+            model.fns.append(clv[2])
+            return
         rows = []
         for want in (True, False):
             for case in self.callee_cases(clv, (ITEM,), want, 0):
@@ -473,32 +716,13 @@ class Engine:
             md.init_none = True
             k = self.sl.apply_closure(strip(args[1]), (ITEM,))
             md.key = self.reduce(k) if k is not None else None
-        elif name == IT + 'max_by' and len(args) == 2:
-            # std: max_by(compare) = reduce(|acc, item| match compare(&acc, &item) { Greater => acc, _ => item }):
-            # the comparator's decision paths and the Ordering it returns become the step table
-            md.kind = 'table'
-            md.init_none = True
-            clv = strip(args[1])
-            g = self.prog.fns.get(clv[1]) if clv[0] == 'closure' else None
-            accv = ('unwrap', ACC)
-            if g is None:
-                md.problems.append('comparator is not a closure')
-            else:
-                md.fns.append(g)
-                m = {(g.path, 1): accv, (g.path, 2): ITEM}
-                for i, uv in enumerate(clv[2]):
-                    m[('upvar', g.path, i)] = uv
-                some = ('acc', frozenset(('Some',)))
-                for case, rv in self.fn_vpaths(g, m, 0):
-                    for outs, pick in ((('Greater',), 'acc'), (('Less', 'Equal'), 'item')):
-                        for extra in self.expand_atom(('variant', strip(rv), ORD, frozenset(outs)), 0):
-                            step, other = self._split(case + extra)
-                            md.spaths.append((pick, [some] + step, other))
-                md.spaths.append(('item', [('acc', frozenset(('None',)))], []))
-        elif name in (IT + 'fold', IT + 'reduce') and len(args) == (3 if name == IT + 'fold' else 2):
+        elif name in (IT + 'max_by', IT + 'fold', IT + 'reduce') and len(args) == (3 if name == IT + 'fold' else 2):
+            # fold(None, step) / reduce(step) / max_by(compare), the step or comparator being a closure or a named
+            # private function; std: reduce(step) = fold(None) seeded by the first element, max_by(compare) =
+            # reduce(|acc, item| std::cmp::max_by(acc, item, compare)).  The step's decision paths, with the private
+            # helpers and std's binary selectors it returns through expanded (value_cases), become the step table.
             md.kind = 'table'
             clv = strip(args[-1])
-            g = self.prog.fns.get(clv[1]) if clv[0] == 'closure' else None
             if name == IT + 'fold':
                 i0 = strip(args[1])
                 md.init_none = i0[0] == 'agg' and i0[2] == 'None' and (i0[1] or '') == OPT
@@ -506,22 +730,24 @@ class Engine:
             else:
                 md.init_none = True
                 accv = ('unwrap', ACC)
-            if g is None:
-                md.problems.append('step is not a closure')
+            g = self.prog.fns.get(clv[1]) if clv[0] in ('closure', 'fnitem') else None
+            if g is None or not g.blocks or (clv[0] == 'fnitem' and g.impl_trait):
+                md.problems.append('%s is not a closure or private function' % ('comparator' if name == IT + 'max_by' else 'step'))
             else:
                 md.fns.append(g)
-                m = {(g.path, 1): accv, (g.path, 2): ITEM}
-                for i, uv in enumerate(clv[2]):
-                    m[('upvar', g.path, i)] = uv
-                for case, rv in self.fn_vpaths(g, m, 0):
+                if name == IT + 'max_by':
+                    rows = self.value_cases(('call', 'std::cmp::max_by', (accv, ITEM, clv), None), 0)
+                else:
+                    rows = [(case + extra, rv2) for case, rv in self.apply_cases(clv, (accv, ITEM), 0) for extra, rv2 in self.value_cases(rv, 0)]
+                for case, rv in rows:
                     step, other = self._split(case)
-                    if name == IT + 'reduce':
+                    if name == IT + 'fold':
+                        pick = self._pick(rv)
+                    else:
                         pick = 'item' if rv == ITEM else ('acc' if rv == accv else '?')
                         step = [('acc', frozenset(('Some',)))] + step
-                    else:
-                        pick = self._pick(rv)
                     md.spaths.append((pick, step, other))
-                if name == IT + 'reduce':
+                if name != IT + 'fold':
                     md.spaths.append(('item', [('acc', frozenset(('None',)))], []))
         else:
             md.kind = 'unsupported:' + md.consumer
@@ -588,18 +814,20 @@ class Engine:
                 continue
             bd = self._last_def(entry, blocks, acc)
             if bd is None:
-                pick = 'acc'
+                picks = [([], 'acc')]
             else:
                 p, d = bd
-                pick = self._pick(self.sub(self.value_at(entry, S, blocks, acc), m))
+                # the assigned value, with the private selector functions / std selectors it is computed by expanded
+                picks = [(extra, self._pick(v2)) for extra, v2 in self.value_cases(self.sub(self.value_at(entry, S, blocks, acc), m), 0)]
                 if len([1 for dd in entry.whole_defs(acc) if dd[1] in blocks]) > 1:
-                    pick = '?'
+                    picks = [([], '?')]
                 for u in uses:
                     if u[0] in blocks and (blocks.index(u[0]), u[2] if u[1] == 'stmt' else 10 ** 6) > p:
-                        pick = '?'      # the updated accumulator is read again in the same iteration
+                        picks = [([], '?')]      # the updated accumulator is read again in the same iteration
             for case in self.expand_case(rest, 0):
-                step, other = self._split(case)
-                body.append((pick, bd is not None, step, other))
+                for extra, pick in picks:
+                    step, other = self._split(case + extra)
+                    body.append((pick, bd is not None, step, other))
         # split the iteration's decisions into predicate (about the element) and step (about the accumulator)
         for pick, assigned, step, other in body:
             md.spaths.append((pick, step, other))
